@@ -1,5 +1,5 @@
 \* intended behaviour (flatten copies the requested class): the property must hold for all histories <= 3
-CONSTANTS CopyOnLookup = TRUE SympyCopies = TRUE LibIds = {1,2,3,4,5,6,7,8,9} MaxReq = 3
+CONSTANTS CopyOnLookup = TRUE SympyCopies = TRUE LibIds = {1,2,3,4,5,6,7,8,9,10,11} MaxReq = 3
           Backends = {"flatten","casadi","sympy","xml"}
 INIT Init
 NEXT Next
